@@ -133,11 +133,12 @@ Pub == /\ R.e = "pub" /\ Clean
           /\ link' = Queued(link)
        /\ UNCHANGED <<nn, slm, fifo, conn, tgt, subs, view, ann>>
 
-(* a forged RPC with one fresh message appears on the link x -> y *)
+(* a forged RPC with 1-3 fresh messages (same topics) appears on the link x -> y *)
 Inj == /\ R.e = "inj" /\ Clean /\ NoEvs /\ Len(R.snd) = 0
-       /\ R.k \notin DOMAIN mt
-       /\ mt' = (R.k :> SeqSet(R.ts)) @@ mt /\ src' = (R.k :> 100) @@ src       \* nobody's own message
-       /\ link' = [link EXCEPT ![R.x][R.y] = Append(@, [s |-> <<>>, m |-> <<R.k>>])]
+       /\ LET ks == SeqSet(R.ks) IN
+          /\ ks \cap DOMAIN mt = {} /\ Cardinality(ks) = Len(R.ks)
+          /\ mt' = [k \in ks |-> SeqSet(R.ts)] @@ mt /\ src' = [k \in ks |-> 100] @@ src       \* nobody's own messages
+       /\ link' = [link EXCEPT ![R.x][R.y] = Append(@, [s |-> <<>>, m |-> R.ks])]
        /\ UNCHANGED <<nn, slm, fifo, conn, tgt, subs, view, ann, seen>>
 
 (* a foreign announcement for topic t WITHOUT the optional subscribe flag was decoded from raw bytes and put on the
